@@ -216,7 +216,8 @@ theorem inplace_ok (cfg : Cfg) {w w' : World α} {c n' : Nat} (hv : VecOK cfg w 
       have hlt := hv.inl_lt
       refine ⟨by rw [hc.len _ (Or.inr (Or.inl (by omega)))]; exact h1, fun i hi => ?_⟩
       exact isRaw_of_eq (hrest _ i (Ne.symm hne) (Or.inr hlt)) (h2 i hi)
-  · refine ⟨?_, by rw [hhc], by rw [hhc], ?_, fun b _ => by rw [hc.owner], by rw [hc.next]; exact Nat.le_refl _, Or.inl (by rw [hhc])⟩
+  · refine ⟨?_, by rw [hhc], by rw [hhc], ?_, fun b _ => by rw [hc.owner], by rw [hc.next]; exact Nat.le_refl _, Or.inl (by rw [hhc]),
+            LiveAcc.of_same hl hv hc.live (by rw [hhc])⟩
     · intro d hd; rw [hh, upd_other _ _ _ _ hd]
     · intro b h1 _ _ h4
       exact mem_eq_of_slots (hc.len b (by rcases h4 with h | h; exact Or.inl h; exact Or.inr (Or.inl (by omega))))
@@ -340,11 +341,44 @@ theorem realloc_ok (cfg : Cfg) {w w' : World α} {c ncap n' : Nat} (hv : VecOK c
       rw [hother b hb1 (by omega)]
       exact hl.tmpfresh b h1 h2
   · -- Frame
-    refine ⟨?_, by rw [hhc], by rw [hhc], ?_, ?_, by rw [hnext]; omega, Or.inr (Or.inr (by rw [hhc]; exact Nat.le_refl _))⟩
+    refine ⟨?_, by rw [hhc], by rw [hhc], ?_, ?_, by rw [hnext]; omega, Or.inr (Or.inr (by rw [hhc]; exact Nat.le_refl _)), ?_⟩
     · intro d hd; rw [hh, upd_other _ _ _ _ hd]
     · intro b h1 _ h3 _
       exact hother b h1 (by omega)
     · intro b hb; rw [howner, upd_other _ _ _ _ (by omega)]
+    · -- live-block accounting: the new block joined, the old heap buffer (if any) left, nothing else changed
+      have hmem : ∀ b, b ∈ w'.live ↔ (b = w.next ∨ b ∈ w.live) ∧ ¬ ((w.hdr c).N < (w.hdr c).cap ∧ b = (w.hdr c).data) := by
+        intro b
+        rw [hlive]
+        have hnd : (w.next :: w.live).Nodup := List.nodup_cons.mpr ⟨hnb_notlive, hl.nodup⟩
+        by_cases hcap : (w.hdr c).N < (w.hdr c).cap
+        · simp only [hcap, if_true, true_and]
+          rw [hnd.mem_erase_iff]; simp only [List.mem_cons]; exact ⟨fun h => ⟨h.2, h.1⟩, fun h => ⟨h.2, h.1⟩⟩
+        · simp only [hcap, if_false, false_and, not_false_eq_true, and_true, List.mem_cons]
+      refine ⟨fun b hb => ?_, fun b hb => ?_⟩
+      · rw [hmem b, hhc]; simp only []
+        constructor
+        · rintro ⟨h1 | h1, h2⟩
+          · omega
+          · refine ⟨h1, fun h3 => ?_⟩
+            exfalso
+            have hcap : ¬ (w.hdr c).N < (w.hdr c).cap := fun hc => h2 ⟨hc, h3⟩
+            have he : (w.hdr c).data = (w.hdr c).inl := by
+              by_cases he : (w.hdr c).data = (w.hdr c).inl
+              · exact he
+              · exact absurd ((hv.heap_iff).mpr he) hcap
+            have := (hl.live_ok b h1).1
+            omega
+        · rintro ⟨h1, h2⟩
+          refine ⟨Or.inr h1, fun ⟨_, h4⟩ => ?_⟩
+          have := h2 h4; omega
+      · rw [hmem b, hhc]; simp only []
+        constructor
+        · rintro ⟨h1 | h1, _⟩
+          · exact h1
+          · have := (hl.live_ok b h1).2.2; omega
+        · intro h1
+          exact ⟨Or.inl h1, fun ⟨_, h4⟩ => by omega⟩
 
 /-! ### the common shape of every reallocating path: allocate, build in the new block, then reset_data or roll back -/
 
